@@ -7,7 +7,10 @@ loaded by the decoder-side loader MODEL; (3) the frame records the dictionary's 
 dictgen.build_exact_of) x frames whose leading blocks are not emitted compressed (raw / RLE / tiny flushed block / mixtures, also compressed ones) followed by a
 block needing a larger offset code, on every block-emitting path (plain, block splitter, targetCBlockSize, LDM), plain + sanitizer build; `attach_family` - the
 product attach preference x dedicated dictionary search x forceMaxWindow x level for refCDict / loadDictionary (+ usingCDict, compressBegin_usingCDict) with
-row-match-finder, window, input size and dictionary kind rotating, in the sanitizer build with exact-size allocations."""
+row-match-finder, window, input size and dictionary kind rotating, in the sanitizer build with exact-size allocations; (5) `history_family` - several frames with one
+digested dictionary through ONE context (reused as is / session reset / full reset / a frame without dictionary in between; fresh contexts as control), the dictionary's
+tables built from explicit compression parameters (dictionary longer than its chain / binary-tree table) or from a level, every strategy (optimal parsers first) x
+supply x attach / default / copy / load, sanitizer + plain build (harness/zvh_dictseq.c)."""
 import re
 import build, zv, frames, dictgen
 
@@ -262,6 +265,89 @@ def attach_family(ctx, exe_s):
     return lines
 
 
+def hx_seq(variant="plain"):
+    return build.link("zvh_dictseq", ["zvh_dictseq.c"], variant)
+
+
+def history_family(ctx):
+    """FAMILY 'one context, one digested dictionary, several frames' (harness/zvh_dictseq.c, op ds).  The indices of a reused working context no longer start
+    where the attached dictionary's end; the dictionary's own tables are built from EXPLICIT compression parameters, so that the dictionary can be longer than its
+    chain / binary-tree table (chainLog 6..10 against 1..112 KB of content: the older nodes are recycled and every search has to stop at the table's horizon),
+    or from a level (16..22 and others).  Design (deterministic): strategy (btopt / btultra / btultra2 with every chainLog class; btlazy2 / lazy2 / lazy / greedy /
+    dfast / fast) x chainLog class x supply (compress_usingCDict, refCDict + compress2 / compressStream2 with unknown size, compressBegin_usingCDict,
+    createCDict_advanced2, parameters on the context + loadDictionary by copy / by reference) ; attach preference (attach mostly, default, copy and load as
+    controls), what happens between the frames (nothing, session reset, full reset, a frame without dictionary; fresh contexts as control), dictionary size
+    and kind (raw / ZDICT_finalizeDictionary), hashLog / searchLog / minMatch / targetLength and frame sizes (1 KB .. 256 KB) rotate.  Vocabulary text over a
+    2..7-letter alphabet: many candidates per hash bucket, long common prefixes.  Sanitizer build (exact-size inputs) for every line, plain build for a quarter of them."""
+    rng = ctx.rng
+    exe_s, exe = hx_seq("san"), hx_seq("plain")
+    lines = []
+    dsz = [8192, 1024, 30000, 4096, 65536, 112000, 16384]
+    sups = "ABSGPMN"
+    k = 0
+
+    def frames_for(k, big):
+        pool = [4096, 1000, 4096, 8192, 20000, 2048, 4096, 65536 if big else 12000]
+        fs = [pool[(k + 3 * j) % len(pool)] for j in range(5)]
+        if big and k % 9 == 4: fs[2] = 262144
+        return fs
+    for strat in (7, 8, 9):
+        for ccls in (0, 1, 2, 3):
+            for si, sup in enumerate(sups):
+                dn = dsz[(k + si) % len(dsz)]
+                fit = max(6, dn.bit_length() + 1)
+                clog = [7, 6 + k % 3, min(10, fit), fit][ccls]
+                hlog = [10, 8, 12, 9, 14][(k // 2) % 5]
+                cp = "%d,%d,%d,%d,%d,%d,%d" % ([17, 18, 19][k % 3], clog, hlog, [7, 5, 9, 4][(k // 3) % 4], [4, 3, 4, 5][k % 4], [48, 16, 999, 64][(k // 5) % 4], strat)
+                attach = 1 if k % 6 else [2, 0, 3][(k // 6) % 3]
+                ctxk = "F" if k % 8 == 7 else "RRsRpRiR"[(k // 2) % 8]
+                lines.append("ds %d %s %s %s %d %s %s %s %d" % (dn, "z" if k % 5 == 3 else "r", cp, sup, attach, ctxk, "du"[k % 2], ",".join(map(str, frames_for(k, ccls >= 2 and dn <= 30000))), rng.randrange(1 << 30)))
+                k += 1
+    for strat in (6, 5, 4, 3, 2, 1):
+        for si, sup in enumerate(sups):
+            if strat <= 2 and si % 2: continue
+            dn = dsz[(k + si) % len(dsz)]
+            cp = "%d,%d,%d,%d,%d,%d,%d" % ([17, 18, 16][k % 3], [6, 7, 8, 10][k % 4], [10, 8, 12, 9][(k // 2) % 4], [5, 3, 7, 4][(k // 3) % 4], [4, 3, 5, 6][k % 4], [8, 16, 4, 32][(k // 5) % 4], strat)
+            lines.append("ds %d %s %s %s %d %s %s %s %d" % (dn, "z" if k % 5 == 3 else "r", cp, sup, 1 if k % 6 else 0, "RsRpRiRF"[k % 8], "du"[k % 2], ",".join(map(str, frames_for(k, True))), rng.randrange(1 << 30)))
+            k += 1
+    for j, lvl in enumerate([16, 17, 18, 19, 20, 21, 22, 13, 15, 5, 9, 3]):
+        sup = "BPSMNAG"[j % 7]
+        lines.append("ds %d %s L%d %s %d %s %s %s %d" % (dsz[(j * 3) % len(dsz)], "z" if j % 4 == 1 else "r", lvl, sup, 1 if j % 5 else 0, "RRsipR"[j % 6], "du"[j % 2], ",".join(map(str, frames_for(j, lvl < 20))), rng.randrange(1 << 30)))
+    jobs = [(exe_s, list(range(j, len(lines), 16)), " [sanitizer build]") for j in range(16)] + [(exe, list(range(j, len(lines), 16))[::2], "") for j in range(8)]
+    res = frames.parallel(lambda job: [(i, o, job[2]) for i, o in zip(job[1], run_resilient_ds(job[0], [lines[i] for i in job[1]]))], [jb for jb in jobs if jb[1]])
+    bad = 0
+    for i, o, tag in sorted(res):
+        if o == "SKIPPED" or o.startswith("ok "):
+            continue
+        if o.startswith("cerr") and ("parameter" in o or "unsupported" in o.lower()):
+            continue
+        what = "the library crashed / the sanitizer reported" if o.startswith("CRASH") else "compression with an accepted dictionary failed" if o.startswith("cerr") else "dictionary round trip broken"
+        ctx.violation("several frames through one context with one digested dictionary%s: %s: %s (%s)" % (tag, what, o[:300], lines[i]), dict(kind="monitor", family="history", op=lines[i], result=o[:3000], san=bool(tag)))
+        bad += 1
+        if bad >= 6:
+            break
+    return lines
+
+
+def run_resilient_ds(exe, lines):
+    out, rest, crashes = [], list(lines), 0
+    while rest:
+        rc, o, err = frames.run_lines(exe, rest, timeout=3000)
+        o = [x for x in o[:len(rest)] if x.startswith(("ok ", "FAIL", "cerr", "bad"))]
+        out += o
+        if len(o) == len(rest):
+            break
+        m = re.search(r"(ERROR: \w+: [^\n]*|runtime error: [^\n]*)", err)
+        loc = [x for x in re.findall(r"#\d+ 0x\w+ in (\w+)", err) if not x.startswith("__")][:4]
+        out.append("CRASH rc=%s %s in %s" % (rc, m.group(1)[:160] if m else err[-160:].replace("\n", " "), "<".join(loc)))
+        crashes += 1
+        rest = rest[len(o) + 1:]
+        if crashes >= 4:
+            out += ["SKIPPED"] * len(rest)
+            break
+    return out
+
+
 def correspondence(ctx):
     rng = ctx.rng
     quick = ctx.quick()
@@ -375,8 +461,10 @@ def correspondence(ctx):
     l4 = reuse_family(ctx, exe, exe_s)
     t5 = ctx.elapsed()
     l5 = attach_family(ctx, exe_s)
-    ev += len(l4) + len(l5); distinct |= set(l4) | set(l5)
-    directed = dict(table_reuse_across_blocks=len(l4), attach_matrix_sanitizer=len(l5), seconds=[round(t5 - t4, 1), round(ctx.elapsed() - t5, 1)])
+    t6 = ctx.elapsed()
+    l6 = history_family(ctx)
+    ev += len(l4) + len(l5) + len(l6); distinct |= set(l4) | set(l5) | set(l6)
+    directed = dict(table_reuse_across_blocks=len(l4), attach_matrix_sanitizer=len(l5), frames_through_one_context=len(l6), seconds=[round(t5 - t4, 1), round(t6 - t5, 1), round(ctx.elapsed() - t6, 1)])
     return dict(evaluations=ev, distinct_nontrivial=len(distinct),
                 rule="load lines (dictionary families x both loaders, sanitizer build) + rt lines (accepted dictionary x supply mode x attach x dedicated search x parameters x decode mode x input); distinct = distinct op lines",
                 samples=samples[:3], loader_outcomes={"%s C=%s D=%s" % k: v for k, v in sorted(kinds.items())}, mode_pairs={"%s->%s" % k: v for k, v in sorted(modes.items())},
@@ -401,6 +489,13 @@ def search_failing_input(ctx, broken, log):
 
 def replay(ctx, data):
     op = data.get("op") or data.get("witness", {}).get("op")
+    if op.startswith("ds "):
+        res, bad = [], False
+        for variant in ("plain", "san"):
+            rc, out, err = frames.run_lines(hx_seq(variant), [op])
+            bad = bad or not (out and out[0].startswith("ok "))
+            res.append("%s build: %s" % (variant, out[0][:300] if out else err[-600:]))
+        return dict(violates=bad, result=res)
     rc, out, err = frames.run_lines(hx("plain"), [op])
     bad = not (out and out[0].startswith(("ok", "C=")))
     res = [o[:300] for o in out]
